@@ -192,6 +192,9 @@ func (g *gen) denseBatch(t *rapid.T, nser int) []hist.PointJ {
 	n := rapid.IntRange(9, min(30, 63-g.cursor)).Draw(t, "rows")
 	var ps []hist.PointJ
 	for s := 0; s < nser; s++ {
+		// value trend of the series: random, or counter-like (growing / falling with time: the extreme of a chunk then sits on the
+		// first or last row of a segment, which the first()/last() readers short-cut through the stored min/max)
+		trend := rapid.SampledFrom([]int{0, 0, 1, -1}).Draw(t, "trend")
 		for k := 0; k < n; k++ {
 			if rapid.IntRange(0, 9).Draw(t, "gap") == 0 {
 				continue
@@ -206,6 +209,9 @@ func (g *gen) denseBatch(t *rapid.T, nser int) []hist.PointJ {
 					continue
 				}
 				v := rapid.IntRange(-40, 40).Draw(t, "val")
+				if trend != 0 {
+					v = trend * (g.cursor + k - 30)
+				}
 				switch fn {
 				case "i":
 					p.Fields[fn] = fmt.Sprint(v)
